@@ -15,3 +15,20 @@ class Driver(ChanDriver):
             'channel/connection closes, silence) delivered one batch per '
             'sleep.  Non-trivial = at least 3 steps and some step raised or '
             'wrote frames.')
+
+    def corpus(self):
+        F = lambda n, num=0, s=b'': (n, num, s)
+        return [
+            # a cancel that fails before anything is written (a returned message is still queued)
+            # must leave the consumer where it is: stop_consuming() still has to cancel it
+            (1, [(1, ('consume', b'a'), [[(1, F('NConsumeOk', 0, b'a'))]]),
+                 (1, ('publish', True), []),
+                 (1, ('idle',), [[(1, F('NReturn', 312)), (1, F('NHeader', 0))]]),
+                 (1, ('cancel', b'a'), []),
+                 (1, ('stop',), [[(1, F('NCancelOk', 0, b'a'))]])]),
+            # the broker cancels another consumer of the channel while a cancel waits for its answer
+            (1, [(1, ('consume', b'a'), [[(1, F('NConsumeOk', 0, b'a'))]]),
+                 (1, ('consume', b'b'), [[(1, F('NConsumeOk', 0, b'b'))]]),
+                 (1, ('cancel', b'a'), [[(1, F('NCancel', 0, b'b')), (1, F('NCancelOk', 0, b'a'))]]),
+                 (1, ('check',), [])]),
+        ]
